@@ -3,6 +3,8 @@
  4 remove_node n | 5 remove_nodes_from ns | 6 remove_edge u v et | 7 remove_edges_from [[u,v]..] et | 8 clear_edges et
  9 add_edge_type name kind [[u,v]..] | 10 remove_edge_type name | 11 graph.update attrs | 12 copy | 13 subgraph ns
  14 clear
+ bulk ops (1, 3, 5, 7) take an optional trailing container flavour: 0 list, 1 tuple, 2 generator, 3 set (where hashable);
+ their element lists may be empty, contain duplicates (also {u,v} / {v,u} twice) and absent elements
  et: 0 directed 1 bidirected 2 undirected 3 extra 4 "all"; kind: 0 nx.Graph 1 nx.DiGraph; attrs [[key, value]..]."""
 import itertools
 
@@ -17,6 +19,10 @@ ALPHABET = [
     [2, 0, 1, 1, ALL, []],              # add_edge(1,1,'all')  (self loop)
     [3, 0, [[1, 2, [[1, 3]]]], 1],      # add_edges_from([(1,2,{a1:3})],'bidirected')
     [4, 0, 1],                          # remove_node(1)
+    [5, 0, [1, 2, 1], 0],               # remove_nodes_from([1, 2, 1])      (duplicate, possibly absent)
+    [5, 0, [0], 2],                     # remove_nodes_from(n for n in [0]) (generator)
+    [3, 0, [[0, 1, []], [1, 0, []], [0, 1, [[0, 1]]]], ALL, 2],   # add_edges_from(generator with duplicates, 'all')
+    [7, 0, [[0, 1], [0, 1]], ALL, 2],   # remove_edges_from(generator with a duplicate, 'all')
     [6, 0, 0, 1, 0],                    # remove_edge(0,1,'directed')
     [6, 0, 0, 1, ALL],                  # remove_edge(0,1,'all')
     [7, 0, [[1, 0]], ALL],              # remove_edges_from([(1,0)],'all')
@@ -71,6 +77,19 @@ def random_history(rng, cls, length, N=4, max_objs=4):
             v = node()
         return u, v
 
+    def flav():
+        return rng.choice([0, 0, 0, 1, 2, 2, 3])
+
+    def bulk(items):
+        """boundary variants of a bulk argument: empty, duplicated elements, as generated"""
+        r = rng.random()
+        if r < 0.08:
+            return []
+        if r < 0.40 and items:
+            items = items + [rng.choice(items) for _ in range(rng.randint(1, 2))]
+            rng.shuffle(items)
+        return items
+
     def sel(o, p_all=0.25, p_absent=0.08):
         r = rng.random()
         if r < p_all:
@@ -95,7 +114,7 @@ def random_history(rng, cls, length, N=4, max_objs=4):
         if r < 0.08:
             op = [0, o, node(), _attrs(rng)]
         elif r < 0.12:
-            op = [1, o, sorted(rng.sample(range(N), rng.randint(1, 3))), _attrs(rng, 0.2)]
+            op = [1, o, bulk(sorted(rng.sample(range(N), rng.randint(1, 3)))), _attrs(rng, 0.2), flav()]
         elif r < 0.34:
             u, v = pair()
             op = [2, o, u, v, sel(o), _attrs(rng)]
@@ -106,13 +125,16 @@ def random_history(rng, cls, length, N=4, max_objs=4):
             for _ in range(rng.randint(1, 3)):
                 u, v = pair()
                 es.append([u, v, _attrs(rng, 0.3)])
-            op = [3, o, es, sel(o)]
-        elif r < 0.45:
+            es = bulk(es)
+            if es and rng.random() < 0.3:
+                es.append([es[0][1], es[0][0], _attrs(rng, 0.3)])      # the reversed pair as well
+            op = [3, o, es, sel(o), flav()]
+        elif r < 0.44:
             n = node()
             op = [4, o, n]
             last_removed = [0, o, n, []]
         elif r < 0.47:
-            op = [5, o, sorted(rng.sample(range(N), rng.randint(1, 2)))]
+            op = [5, o, bulk(sorted(rng.sample(range(N), rng.randint(1, 3)))), flav()]
         elif r < 0.54:
             u, v = pair()
             t = sel(o)
@@ -125,7 +147,7 @@ def random_history(rng, cls, length, N=4, max_objs=4):
             op = [6, o, u, v, t]
             last_removed = [2, o, u, v, t, _attrs(rng)]
         elif r < 0.57:
-            op = [7, o, [list(pair()) for _ in range(rng.randint(1, 3))], sel(o)]
+            op = [7, o, bulk([list(pair()) for _ in range(rng.randint(1, 3))]), sel(o), flav()]
         elif r < 0.59:
             op = [8, o, sel(o, p_all=0.5)]
         elif r < 0.60:
